@@ -186,8 +186,16 @@ func main() {
 			rep.Hung = rep.Hung || res.hung
 		}
 		rep.DistinctNontrivial = len(distinct)
-		if len(rep.Findings) > 60 {
-			rep.Findings = rep.Findings[:60]
+		{ // at most 30 findings per property
+			per := map[string]int{}
+			var keep []finding
+			for _, f := range rep.Findings {
+				per[f.Property]++
+				if per[f.Property] <= 30 {
+					keep = append(keep, f)
+				}
+			}
+			rep.Findings = keep
 		}
 		b, _ := json.MarshalIndent(rep, "", " ")
 		os.WriteFile(filepath.Join(*out, "report.json"), b, 0o644)
